@@ -361,10 +361,28 @@ HostPortSubM(u0) ==
   ELSE LET raw == RStripSet(Get(rh.ok), {DOT})
            h == IF Has(raw, COLON) THEN <<LBR>> \o raw \o <<RBR>> ELSE raw IN
        IF IsNone(ep.ok) \/ ep.ok = DefaultPortOf(u0.scheme) THEN [ok |-> SOME(h)] ELSE [ok |-> SOME(h \o <<COLON>> \o NatText(Get(ep.ok)))]
-AccessorNames == {"host_port_subcomponent", "query", "scheme", "raw_authority", "raw_user", "raw_password", "raw_host", "explicit_port", "host_subcomponent", "user", "password", "port", "raw_path", "path", "path_safe", "raw_query_string", "query_string", "raw_fragment", "fragment", "raw_parts", "parts", "raw_name", "name", "raw_suffix", "suffix", "raw_suffixes", "suffixes", "raw_path_qs", "path_qs", "absolute", "bool", "str", "is_default_port"}
+\* URL.host: IP literals and digit-final names verbatim; other ASCII names are what idna.decode returns for them (themselves);
+\* punycode labels / non-ASCII raw hosts go through the idna package: gray (environment)
+HostIdnaGray(h) == ~IsAscii(h) \/ \E i \in 1..(Len(h) - 3) : SubSeq(LowerS(h), i, i + 3) = <<120, 110, 45, 45>>
+HostDecodedM(u0) ==
+  LET rh == RawHost(u0) IN
+  IF ~IsOK(rh) THEN [exc |-> "ValueError"] ELSE IF IsNone(rh.ok) THEN [ok |-> NONE]
+  ELSE IF HostIdnaGray(Get(rh.ok)) THEN GRAY ELSE [ok |-> rh.ok]
+\* URL.authority = make_netloc(user, password, host, port) on the DECODED parts: the port falls back to the scheme default,
+\* an IPv6 host is NOT bracketed (named: Dev_AuthorityUnbracketedIpv6 -- outside the listed properties, modelled as the code is)
+AuthorityM(u0) ==
+  LET np == NetlocParts(u0) hd == HostDecodedM(u0) IN
+  IF ~IsOK(np) THEN [exc |-> "ValueError"] ELSE IF IsGray(hd) THEN GRAY
+  ELSE LET p == np.ok
+           port == IF ~IsNone(p.port) THEN p.port ELSE DefaultPortOf(u0.scheme)
+           un(x) == IF IsNone(x) THEN NONE ELSE SOME(UnqPlain(Get(x))) IN
+       [ok |-> MakeNetloc(un(p.user), un(p.password), hd.ok, OptPortText(port), FALSE)]
+AccessorNames == {"authority", "host", "host_port_subcomponent", "query", "scheme", "raw_authority", "raw_user", "raw_password", "raw_host", "explicit_port", "host_subcomponent", "user", "password", "port", "raw_path", "path", "path_safe", "raw_query_string", "query_string", "raw_fragment", "fragment", "raw_parts", "parts", "raw_name", "name", "raw_suffix", "suffix", "raw_suffixes", "suffixes", "raw_path_qs", "path_qs", "absolute", "bool", "str", "is_default_port"}
 \* one accessor at a time (only the observed ones are evaluated)
 AccM(f, u) ==
   CASE f = "host_port_subcomponent" -> HostPortSubM(u)
+    [] f = "authority" -> AuthorityM(u)
+    [] f = "host" -> HostDecodedM(u)
     [] f = "query" -> [ok |-> QueryPairsReplace(u.query)]
     [] f = "scheme" -> [ok |-> u.scheme]
     [] f = "raw_authority" -> [ok |-> u.netloc]
